@@ -400,7 +400,18 @@ func VH_c04_mp() {
 	}
 	vReach("end")
 	// last, because it is a recorded finding on the unchanged tree (known_findings.json):
-	vAssert(lenOK, "constructed MP attribute Len() does not count the ADD-PATH path identifiers it emits")
+	if !c04mpDirectionOnly {
+		vAssert(lenOK, "constructed MP attribute Len() does not count the ADD-PATH path identifiers it emits")
+	}
+}
+
+// C08 (emitted under exactly the negotiated options): the same round trip, deciding only the ADD-PATH
+// direction of MP_REACH / MP_UNREACH; the Len() bookkeeping is C04's subject (recorded finding there)
+var c04mpDirectionOnly bool
+
+func VH_c08_mp_direction() {
+	c04mpDirectionOnly = true
+	VH_c04_mp()
 }
 
 func VH_c04_open() {
